@@ -8,6 +8,8 @@ import (
 	"math/rand"
 	"path/filepath"
 
+	"github.com/mandykoh/prism/linear"
+
 	"verif/harness/numlog"
 )
 
@@ -196,6 +198,12 @@ func alphaCmd(args []string) error {
 		math.SmallestNonzeroFloat32, 1.1754944e-38, 0.99999994, 1.0000001, -1e-30, 1e30} {
 		fa = append(fa, v)
 	}
+	// around the 8- and 16-bit alpha grids and the rounding boundaries between their codes
+	for i := 0; i < 400; i++ {
+		k := rng.Intn(65536)
+		fa = append(fa, float32(k)/65535, float32((float64(k)+0.5)/65535), float32(float64(k%256)/255), float32((float64(k%256)+0.5)/255),
+			float32((float64(k%256)+0.5+1e-4)/255), float32((float64(k%256)+0.5-1e-4)/255))
+	}
 	for i := 0; i < na; i++ {
 		switch i % 3 {
 		case 0:
@@ -229,6 +237,13 @@ func alphaCmd(args []string) error {
 			ev8 := pointEvent(q8, al, n8, 0)
 			ev8["name"] = sp.name + ".Color.ToNRGBA alpha"
 			sink.put(ev8)
+			lr := linearRGB{0.25, 0.5, 0.75}
+			evp := pointEvent(q8, al, int(lr.toRGBA(sp.name, al).A), 0)
+			evp["name"] = sp.name + ".Color.ToRGBA alpha"
+			sink.put(evp)
+			evl := pointEvent(q16, al, int(linear.RGB{R: 0.25, G: 0.5, B: 0.75}.ToLinearRGBA64(al).A), 0)
+			evl["name"] = "linear.RGB.ToLinearRGBA64 alpha"
+			sink.put(evl)
 		}
 	}
 	_ = numlog.Limbs
